@@ -147,13 +147,14 @@ def check_typestate(R, E, F, roles, state_adt, fn, paths, rule='C01.I1'):
                     if infeasible:
                         continue
                     feasible += 1
-                    if bad is None and path.exit == 'return':
+                    if bad is None and path.exit in ('return', 'loopbound'):
                         if (1 if linked(s) else 0) != m:
                             bad = ('state-membership-mismatch', None,
                                    'final state %s is %s but the node is %s (entry state %s%s)' % (
                                        s, 'a linked state' if linked(s) else 'an unlinked state',
                                        'in the queue' if m else 'not in the queue', v0,
-                                       '' if fair is None else ', fair=%s' % fair))
+                                       '' if fair is None else ', fair=%s' % fair)
+                                   + (' [at the loop head after two full iterations]' if path.exit == 'loopbound' else ''))
                     if bad is None and path.exit == 'panic':
                         # a feasible panic on a failed unlink: the node was not a member
                         for e in path.events:
